@@ -485,6 +485,9 @@ func (p *Process) onProcessEnd(state string) {
 	if p.readyProber != nil {
 		p.readyCancelFn()
 	}
+	// a process that ended without printing its ready log line will never become
+	// log ready: release the processes waiting for it (no-op if it already did)
+	p.readyLogCancelFn(fmt.Errorf("process %s ended", p.getName()))
 	p.setState(state)
 	p.updateProcState()
 
